@@ -12,14 +12,15 @@ func init() {
 	register(&Property{
 		ID:        "C02",
 		Title:     "Felix's output stream never references something the dataplane lacks",
-		Technique: "static analysis: SSA dominance/post-dominance ordering of proto emissions, cut-set guard analysis, who-may-construct (go/ssa over felix/calc)",
+		Technique: "static analysis: SSA dominance/post-dominance ordering of proto emissions, cut-set guard analysis, who-may-construct (go/ssa over felix/calc); role attribution of the raw member callbacks by backward value slices through helpers/closures (go/ssa over felix/labelindex)",
 		DesignRef: "DESIGN.md §3 C02",
 		Explanation: "Decides the structural clauses of the property on EventSequencer/AsyncCalcGraph: (order) in EventSequencer.Flush every emission of a referenced " +
 			"message type dominates every emission of the type that references it, and removals are emitted after the updates/removals of their referrers; " +
 			"(sentguard) every *Remove emission is control-dependent on membership of the key in the 'sent' set that the emission updates, at emit or at enqueue; " +
 			"(ipset) IP-set member deltas are accepted only for sets that are sent or pending, opposite deltas cancel, a set (re-)add or removal clears both delta multidicts; " +
-			"(insync) proto.InSync is constructed in exactly one function, guarded by the flag that is only set under update==api.InSync, after both Flush calls.",
-		NotDecided: "That upstream calc-graph nodes call the sequencer with the right objects (e.g. that a policy really references the IP set it is ordered after); run-time contents of sets.",
+			"(insync) proto.InSync is constructed in exactly one function, guarded by the flag that is only set under update==api.InSync, after both Flush calls; " +
+			"(memberdelta) upstream of the sequencer, each overlap-suppressor wrapper of SelectorAndNamedPortIndex fulfils its roles through the raw OnMemberAdded/OnMemberRemoved callbacks - non-CIDR members unchanged, its own member exactly under the suppressor's primary result being non-nil, and the suppressor's secondary results (newly masked / re-exposed members) in the opposite direction without passing through a suppressor wrapper again - and the raw callbacks are invoked for nothing else, so a delta never removes a member that was not announced nor adds one that was not withdrawn.",
+		NotDecided: "That upstream calc-graph nodes call the sequencer with the right objects (e.g. that a policy really references the IP set it is ordered after); run-time contents of sets; that the overlap suppressor's results are the right members (C04.trieprefix decides part of it) and that the set id handed to the raw callbacks is the wrapper's own.",
 		Assumptions: []string{
 			"go/types + go/ssa (x/tools v0.50.0) model of the current source, CGO_ENABLED=0 build",
 			"set.Set / multidict have set semantics (Contains/Add/Discard)",
@@ -47,6 +48,12 @@ func init() {
 				Old: "\t\tacg.eventSequencer.Flush()\n", New: "", Expect: "C02.insync/flush-before"},
 			{Name: "in-sync flag set on any status", File: "felix/calc/async_calc_graph.go",
 				Old: "if update == api.InSync && !acg.initialSyncCompleted {", New: "if !acg.initialSyncCompleted {", Expect: "C02.insync/flag-set"},
+			{Name: "C02-3: re-exposed CIDRs routed through the add wrapper again (never delta-added, later delta-removed)", File: "felix/labelindex/named_port_index.go",
+				Old: "\t\t\tidx.OnMemberAdded(ipSetID, ipsetmember.MakeCIDROrIPOnly(a))", New: "\t\t\tidx.onMemberAdded(ipSetID, ipsetmember.MakeCIDROrIPOnly(a))", Expect: "C02.memberdelta/reexpose/"},
+			{Name: "newly masked CIDRs routed through the remove wrapper again (never withdrawn, later added twice)", File: "felix/labelindex/named_port_index.go",
+				Old: "\t\t\tidx.OnMemberRemoved(ipSetID, ipsetmember.MakeCIDROrIPOnly(r))", New: "\t\t\tidx.onMemberRemoved(ipSetID, ipsetmember.MakeCIDROrIPOnly(r))", Expect: "C02.memberdelta/mask/"},
+			{Name: "covered member's removal emitted (removes a member the dataplane never got)", File: "felix/labelindex/named_port_index.go",
+				Old: "\t\tif rem != nil {\n\t\t\tidx.OnMemberRemoved(ipSetID, cidrMember)\n\t\t}", New: "\t\tif rem == nil {\n\t\t\tidx.OnMemberRemoved(ipSetID, cidrMember)\n\t\t}", Expect: "C02.memberdelta/primary/"},
 		},
 	})
 }
@@ -100,6 +107,19 @@ func runC02(c *Ctx) {
 	// versa): otherwise the object is removed although it is still referenced (shared with C01).
 	c.Rule("C02.cancel", "E-PAIR", "per message family: a store into the pending-update map discards the same key from the pending-delete set on every path, and an Add to the pending-delete set deletes the key from the update map (no Remove is emitted for an object that was re-announced before the flush)", 24)
 	c01Cancel(c, m, c01Families(c, m), "C02.cancel")
+	// The member deltas the sequencer batches come from SelectorAndNamedPortIndex's raw
+	// OnMemberAdded/OnMemberRemoved callbacks (wired to OnIPSetMemberAdded/Removed).  With
+	// overlap suppression the index's view "member is in the dataplane" is the suppressor's
+	// trie; it equals the dataplane's contents only if every change of that view is announced:
+	// a member re-exposed by the removal of its covering CIDR must be delta-added (else its
+	// later removal names a member the dataplane never got), a member newly masked must be
+	// delta-removed (else its later re-exposure adds a member the dataplane still has), and
+	// the wrapper's own member is emitted only when the suppressor says it is not covered.
+	// These are the wrapper roles of C04.suppressor - necessary conditions of "delta updates
+	// only add absent members and only remove present members" - armed here under C02's id.
+	c.Rule("C02.memberdelta", "E-OWN/E-GUARD/E-FLOW", "the overlap-suppressor wrappers of the label index announce every change of the suppressor's view of the emitted members through the raw member callbacks: own member iff the primary result is non-nil, non-CIDR members unchanged, newly masked members as raw removals and re-exposed members as raw adds (bypassing the suppressor); the raw callbacks are invoked for nothing else (c04WrapperRoles)", 6)
+	m04 := c04BuildModel(c)
+	c.Alias("C04.suppressor/", "C02.memberdelta/", func() { c04WrapperRoles(c, m04) })
 }
 
 // orderSites lists the instructions of fn that emit msg, directly or through callees.
